@@ -588,6 +588,13 @@ def _ret_kind(fa, n, e, depth=0) -> Set[str]:
             return {"number"}
     if isinstance(e, ast.JoinedStr):
         return {"string"}
+    if isinstance(e, ast.IfExp):
+        return _ret_kind(fa, n, e.body, depth + 1) | _ret_kind(fa, n, e.orelse, depth + 1)
+    if isinstance(e, ast.BoolOp):
+        out = set()
+        for v in e.values:
+            out |= _ret_kind(fa, n, v, depth + 1)
+        return out
     if isinstance(e, ast.Subscript) and isinstance(e.slice, ast.Slice):
         return _ret_kind(fa, n, e.value, depth + 1)
     if isinstance(e, ast.BinOp) and isinstance(e.op, (ast.Add, ast.Mod)):
@@ -685,11 +692,19 @@ def r13g(run, F):
                 kinds = _ret_kind(fa, n, n.ast.value)
                 guard = sorted(f"{t_}={p}" + _callee_summary(f, a_) for (t_, p), (a_, _p) in
                                zip([(unparse(a), p) for a, p in fa.facts.atoms_at(n)], fa.facts.atoms_at(n)))
+                # the finding is keyed by *which predicates* decide the branch (and what the module-level ones compute),
+                # not by how the tests are nested, negated or merged
+                preds = {}
+                for a_, _p in fa.facts.atoms_at(n):
+                    for x in ast.walk(a_):
+                        if isinstance(x, ast.Call) and call_attr(x):
+                            preds[call_attr(x)] = _callee_summary(f, x) if isinstance(x.func, ast.Name) else ""
+                key_guard = ", ".join(k_ + v_ for k_, v_ in sorted(preds.items())) or "always"
                 ok = kinds <= compat
                 if "unknown" in kinds:
                     raise AnalysisError(f"R13g: cannot classify `{norm_stmt(n.ast)}` in {f.ref}")
                 run.check("R13g", f, f"{t}: `{norm_stmt(n.ast)[:40]}` is a JSON {announced}", ok,
-                          construct=f"{t} encoded as {'/'.join(sorted(kinds))} under [{', '.join(guard)}]",
+                          construct=f"{t} encoded as {'/'.join(sorted(kinds))} depending on [{key_guard}]",
                           message=f"the generator announces {t} as {announced!r} but `{norm_stmt(n.ast)}` "
                                   f"(when {', '.join(guard) or 'always'}) publishes a JSON {'/'.join(sorted(kinds))}",
                           necessity="the encoded output of the parser does not validate against the generated output "
